@@ -125,6 +125,7 @@ func c19Run(t *testing.T, s *sim.Scn) *sim.Outcome {
 	usePass := append([]byte(nil), pass...)
 	wrong := false
 	doExport := false
+	inPlace := false
 	what := "pristine file"
 	for _, op := range s.Ops {
 		switch op.K {
@@ -161,6 +162,7 @@ func c19Run(t *testing.T, s *sim.Scn) *sim.Outcome {
 			o.Count("wrong-passphrases", 1)
 		case "export":
 			doExport = true
+			inPlace = op.A%2 == 1
 		}
 	}
 	dir, err := os.MkdirTemp("", "verif-c19-")
@@ -261,6 +263,10 @@ func c19Run(t *testing.T, s *sim.Scn) *sim.Outcome {
 		}
 		dir2, _ := os.MkdirTemp("", "verif-c19-")
 		defer os.RemoveAll(dir2)
+		if inPlace {
+			dir2 = dir // import over the file the key was exported from (in-place re-encryption / format upgrade)
+			o.Count("in-place-imports", 1)
+		}
 		p2 := c19Pass(passClass + 1)
 		if err := filesigner.ImportPrivateKey(dir2, raw, append([]byte(nil), p2...)); err != nil {
 			o.Fail("C19/import-failed", "", 0, err.Error(), "import of an exported key succeeds")
@@ -314,7 +320,7 @@ func c19Enumerate(tier string, run func(*sim.Scn) *sim.Outcome) string {
 			cfg := func() map[string]int64 { return map[string]int64{"pass": pass, "fmt": format} }
 			// every variant: the undamaged file loads with its passphrase (and round-trips through export/import),
 			// and with no other passphrase
-			scns = append(scns, &sim.Scn{Cfg: cfg(), Ops: []sim.Op{{K: "export"}}})
+			scns = append(scns, &sim.Scn{Cfg: cfg(), Ops: []sim.Op{{K: "export"}}}, &sim.Scn{Cfg: cfg(), Ops: []sim.Op{{K: "export", A: 1}}})
 			for w := int64(0); w < 4; w++ {
 				scns = append(scns, &sim.Scn{Cfg: cfg(), Ops: []sim.Op{{K: "wrongpass", A: w}}})
 			}
